@@ -41,8 +41,13 @@ def gen_case(rng, tier, avoid):
     if rng.random() < 0.25:
         win = {'from_idx': 0, 'to_idx': b}
     ics = gen.pick(rng, gen.ics_choices(rng, max(b - a, 1)))
+    pre = None
+    if rng.random() < 0.3 and rows > 2:
+        # windows are typically exported one after another from one specification: an earlier export of another window
+        a0 = rng.randint(0, rows - 1)
+        pre = {'from_idx': a0, 'to_idx': rng.choice([a0 + 1, rng.randint(a0 + 1, rows)])}
     return {'scenario': {'env': {'tz': 'UTC'}, 'history': spec.ops},
-            'params': {'window': win, 'ics': ics, 'ext_seed': rng.randrange(1 << 30), 'rows': rows,
+            'params': {'window': win, 'ics': ics, 'pre_window': pre, 'ext_seed': rng.randrange(1 << 30), 'rows': rows,
                        'kinds': ['dict', 'struct', 'h5'], 'avoid_fastpath_window': 'fastpath_window' in avoid}}
 
 
@@ -66,8 +71,12 @@ def check_case(case, ex):
     out = []
     rows = P['rows']
 
-    def write(ops, **kw):
-        sc = {'env': case['scenario']['env'], 'history': list(ops) + [C.wop(fid, output_chunk_size=1 << 20, **kw)]}
+    def write(ops, pre=None, **kw):
+        first = []
+        if pre:
+            pk = {k: v for k, v in kw.items() if k in ('data', 'input_chunk_size')}
+            first = [C.wop(fid, output_chunk_size=1 << 20, path='earlier.dlis', **dict(pk, **pre))]
+        sc = {'env': case['scenario']['env'], 'history': list(ops) + first + [C.wop(fid, output_chunk_size=1 << 20, **kw)]}
         res = ex(sc)
         stats['execs'] += 1
         stats['seams'].update(res['seams'])
@@ -107,8 +116,8 @@ def check_case(case, ex):
         if P.get('avoid_fastpath_window') and fast and a > 0:
             C.bump(stats['skipped'], 'fastpath_window_avoided')
             continue
-        o2, F2, st2 = write(ops, **dict(dkw, **dict(ikw, **wkw)))
-        fp = {'kind': kind, 'window': True, 'from_gt0': a > 0, 'to_given': b is not None, 'ics': C.ics_class(ics, max((b or rows) - a, 1))}
+        o2, F2, st2 = write(ops, pre=P.get('pre_window'), **dict(dkw, **dict(ikw, **wkw)))
+        fp = {'kind': kind, 'window': True, 'after_earlier_window': bool(P.get('pre_window')), 'from_gt0': a > 0, 'to_given': b is not None, 'ics': C.ics_class(ics, max((b or rows) - a, 1))}
         if o2 != 'ok':
             out.append(C.V('C11.outcome_differs', fp, exc=st2.get('exc'), msg=st2.get('msg'), window=[a, b]))
         elif F2 != F_pre:
